@@ -5,6 +5,7 @@ import (
 	"encoding/base64"
 	"encoding/json"
 	"fmt"
+	"math"
 	"net/http"
 	"sort"
 	"strings"
@@ -202,8 +203,12 @@ func parseGetBlockRequest(raw *json.RawMessage) (*GetBlockRequest, error) {
 		return nil, fmt.Errorf("first argument must be a number, got %T", params[0])
 	}
 
+	slot, err := slotFromJSONNumber(slotRaw)
+	if err != nil {
+		return nil, err
+	}
 	out := &GetBlockRequest{
-		Slot: uint64(slotRaw),
+		Slot: slot,
 	}
 
 	if len(params) > 1 {
@@ -696,5 +701,18 @@ func parseGetBlockTimeRequest(raw *json.RawMessage) (uint64, error) {
 	if !ok {
 		return 0, fmt.Errorf("first argument must be a number, got %T", params[0])
 	}
-	return uint64(blockRaw), nil
+	return slotFromJSONNumber(blockRaw)
+}
+
+// slotFromJSONNumber converts the decoded JSON number of a request into a slot. The number has gone
+// through a float64: a fraction was silently cut (getBlock(2.7) answered with block 2), and an integer
+// above 2^53 may have been rounded to another slot - neither is the number of the slot that is then looked up.
+func slotFromJSONNumber(f float64) (uint64, error) {
+	if f < 0 || f != math.Trunc(f) {
+		return 0, fmt.Errorf("slot must be a non-negative integer, got %v", f)
+	}
+	if f >= 1<<53 {
+		return 0, fmt.Errorf("slot %v is too large to be represented exactly", f)
+	}
+	return uint64(f), nil
 }
